@@ -29,6 +29,15 @@ impl Driven for D {
          _ => panic!("verif harness: unknown relation {}", rel),
       }
    }
+   fn clear(&mut self, rel: &str) {
+      match rel {
+         "e" => { self.0.e = Default::default(); },
+         "u" => { self.0.u = Default::default(); },
+         "r" => { self.0.r = Default::default(); },
+         "q" => { self.0.q = Default::default(); },
+         _ => panic!("verif harness: unknown relation {}", rel),
+      }
+   }
    fn run(&mut self) { self.0.run(); }
    fn dump(&self) -> Value {
       let mut m: Vec<(String, Value)> = vec![];
